@@ -898,14 +898,18 @@ theorem stepCandidate_tn (r : Raft) (m : Message) :
         TN.trans (TN.of_msgs (becomeFollower_msgs _ _ _)) ha)
   · split
     · exact Res.post_ok (TN.refl _)
-    · apply Res.post_bind (poll_tn r _ _ _)
-      intro a ha
-      exact Res.post_bind (maybeCommitByVote_tn a.1 m) (fun b hb => TN.trans ha hb)
+    · split
+      · exact Res.post_ok (TN.refl _)
+      · apply Res.post_bind (poll_tn r _ _ _)
+        intro a ha
+        exact Res.post_bind (maybeCommitByVote_tn a.1 m) (fun b hb => TN.trans ha hb)
   · split
     · exact Res.post_ok (TN.refl _)
-    · apply Res.post_bind (poll_tn r _ _ _)
-      intro a ha
-      exact Res.post_bind (maybeCommitByVote_tn a.1 m) (fun b hb => TN.trans ha hb)
+    · split
+      · exact Res.post_ok (TN.refl _)
+      · apply Res.post_bind (poll_tn r _ _ _)
+        intro a ha
+        exact Res.post_bind (maybeCommitByVote_tn a.1 m) (fun b hb => TN.trans ha hb)
   · exact Res.post_ok (TN.refl _)
 
 theorem stepFollower_tn (r : Raft) (m : Message) :
@@ -1231,14 +1235,18 @@ theorem stepCandidate_rel (r : Raft) (m : Message) :
         Rel.trans (Rel.of_none (becomeFollower_leadTransferee _ _ _)) ha)
   · split
     · exact Res.post_ok (Rel.refl _)
-    · apply Res.post_bind (poll_rel r _ _ _)
-      intro a ha
-      exact Res.post_bind (maybeCommitByVote_rel a.1 m) (fun b hb => Rel.trans ha hb)
+    · split
+      · exact Res.post_ok (Rel.refl _)
+      · apply Res.post_bind (poll_rel r _ _ _)
+        intro a ha
+        exact Res.post_bind (maybeCommitByVote_rel a.1 m) (fun b hb => Rel.trans ha hb)
   · split
     · exact Res.post_ok (Rel.refl _)
-    · apply Res.post_bind (poll_rel r _ _ _)
-      intro a ha
-      exact Res.post_bind (maybeCommitByVote_rel a.1 m) (fun b hb => Rel.trans ha hb)
+    · split
+      · exact Res.post_ok (Rel.refl _)
+      · apply Res.post_bind (poll_rel r _ _ _)
+        intro a ha
+        exact Res.post_bind (maybeCommitByVote_rel a.1 m) (fun b hb => Rel.trans ha hb)
   · exact Res.post_ok (Rel.refl _)
 
 theorem stepFollower_rel (r : Raft) (m : Message) :
